@@ -4,7 +4,9 @@ PROPS["C09"] = dict(
               "oracles: single-flight monitor, created/deleted ledger, capacity bound (ledger and, through the overlay accessor VerifWalk, the cache's own resident count), linearizability against a sequential LRU model (porcupine)",
     rule="case = capacity 1..3, 1..3 keys, 2..4 worker programs of <= 6 (10 free-running) calls over GetOrCreate/Remove/Clear; controlled mode adds <= 60 "
          "scheduler decisions {start the next call of an idle worker, complete the creation parked for key k with success or failure} followed by a "
-         "drain; free-running mode lets 0/20/50% of creations fail and yields inside the create function. Every call is recorded with the value "
+         "drain; free-running mode lets 0/20/50% of creations fail and yields inside the create function. In every second case (all modes) the failing creations return, instead of the harness' plain sentinel, one drawn SHAPE OF ERROR VALUE (as in C08: wrapped, a golibs/errors class, a typed nil pointer of a custom error type "
+         "- a non-nil error -, a zero-size struct value, a value whose Error method panics, a context error, a non-comparable slice-typed value, a pointer to a custom type, errors.Join): err != nil is a failed creation whatever is inside the interface, "
+         "the caller must get that error (lru:foreign-error otherwise) and the ledger / the sequential reference must see nothing inserted (classes failing_creations_return_error_*). Every call is recorded with the value "
          "returned, the value it created and the delete callbacks it made (attributed by goroutine); after a final Clear every created value must "
          "have been deleted exactly once. Capacity 1..4 over 1..6 keys, key 0 being the zero value of the key type (the empty string); one case in four is a long recency history (10-40 calls, heavy on hits and removals) on one worker with the others interfering a little. One case in four builds the cache WITHOUT a delete callback (a legal configuration): the ledger is then silent and the case is judged on returned values, creations (hit vs miss) and Clear counts against the sequential LRU model. non-trivial = two workers were inside GetOrCreate of one key at the same time, or a delete callback ran "
          "while a creation was between its start and its insertion; distinct = hash of (case, mode). "
